@@ -2513,7 +2513,7 @@ def register_vector_layer(reg):
             c = res.fields["_ctor"]
             eng.check(f"{name}#ensures.same_operator_over_the_context_values_of_the_object_and_the_corresponding_operands", c["operator"] == "theOperator" and c["obj"] is vic_of(I, env.vars["_obj"]) and c["obj"] is not None and same_seq(c["operands"], [vic_of(I, k) for k in env.vars["_ks"]]) and all(ctx is env.vars["context"] for _, ctx in I.vic_log))
 
-    reg.add(C.Contract(f"{VEC}:VectorOperatorDistribution.evaluateInner", params=dict(self=C.Obj(f"{VEC}:VectorOperatorDistribution"), context=C.Const(None)), setup=setup_vei, post=post_vei, properties=("C05",)))
+    reg.add(C.Contract(f"{VEC}:VectorOperatorDistribution.evaluateInner", params=dict(self=C.Obj(f"{VEC}:VectorOperatorDistribution"), context=C.Const(None)), setup=setup_vei, post=post_vei, replay=replay_vector_node_evaluate, properties=("C05",)))
 
     def setup_vmsg(I, env):
         calls, R = [], PObj("Result", tag="result")
@@ -2588,6 +2588,10 @@ def replay_vector_handler(inputs, clause):
     x = Vector(Range(0, 1), 2, 3) + Vector(1, 1, 1)  # a random vector (VectorOperatorDistribution)
     kind = inputs.get("operand")
     cs = [float(inputs.get(f"operand.{a}", 0.0)) for a in "xyz"]
+    off = Vector(1, 0, 0)
+    res = x.offsetRotated(0.5, off)
+    if not (isinstance(res, VectorOperatorDistribution) and res.operator == "offsetRotated" and res.object is x and len(res.operands) == 2 and res.operands[0] == 0.5 and res.operands[1] is off):
+        return f"X.offsetRotated(0.5, v) built {res!r} with operands {getattr(res, 'operands', None)!r}"
     operand = {"Vector": Vector(*cs), "tuple": tuple(cs), "list": list(cs)}.get(kind)
     if operand is None or not inputs.get("zeroIdentity"):
         return None
@@ -2623,6 +2627,20 @@ def replay_vector_operator_helper(inputs, clause):
             if tuple(res) != tuple(want):
                 return f"Vector{tuple(v)}.{opname}(<lazy operand evaluating to {tuple(other)}>) evaluates to {res!r}; plain Python gives {want!r}"
         return None
+    if kind == "random":
+        from scenic.core.vectors import VectorMethodDistribution, VectorOperatorDistribution
+
+        rv = Vector(Range(4, 4), 5.0, 6.0)
+        res = v + rv
+        want_cls = VectorOperatorDistribution if self_random else VectorMethodDistribution
+        if type(res) is not want_cls or res.object is not v or (res.operands if self_random else res.arguments)[0] is not rv:
+            return f"Vector + <random vector> built {type(res).__name__} over object {res.object!r}; expected {want_cls.__name__} over the receiver and the operand"
+        if not self_random:
+            got = tuple(res.sample())
+            want = (scs[0] + 4, scs[1] + 5.0, scs[2] + 6.0)
+            if any(abs(a - b) > 1e-9 for a, b in zip(got, want)):
+                return f"Vector{tuple(scs)} + <random vector sampled as (4, 5, 6)> sampled as {got}, expected {want}"
+        return None
     if kind in ("Vector", "tuple") and not self_random:
         cs = [float(inputs.get(f"operand.{a}", 0.0)) for a in "xyz"]
         operand = Vector(*cs) if kind == "Vector" else tuple(cs)
@@ -2651,6 +2669,21 @@ def make_replay_method_helper(short):
         self_random = bool(inputs.get("self_random"))
         kind = inputs.get("arguments")
         if "scalarOperator" not in short:
+            from scenic.core.vectors import VectorField
+
+            vf = VectorField("field", lambda pos: 0.3)
+            want = vf.followFrom(Vector(1, 2, 0), 2.0, steps=2)
+            if kind == "lazy":
+                d = DelayedArgument(("p",), lambda ctx: Vector(1, 2, 0), _internal=True)
+                res = vf.followFrom(d, 2.0, steps=2).evaluateIn(LazilyEvaluable.makeContext(p=1))
+            elif kind in ("random positional", "random keyword"):
+                res = (vf.followFrom(Vector(Range(1, 1), 2, 0), 2.0, steps=2) if kind == "random positional" else vf.followFrom(Vector(1, 2, 0), 2.0, steps=Range(2, 2) * 1)).sample()
+                if kind == "random keyword":
+                    return None  # a random step count is not meaningful for the real method
+            else:
+                res = vf.followFrom(Vector(1, 2, 0), 2.0, steps=2)
+            if any(abs(a - b) > 1e-9 for a, b in zip(tuple(res), tuple(want))):
+                return f"VectorField.followFrom with a {kind} start evaluates to {tuple(res)}, plain Python gives {tuple(want)}"
             return None
         plain_self, plain_other = Vector(0.5, 2, 3), Vector(4, -1, 2)
         meths = ("distanceTo", "angleTo", "azimuthTo", "altitudeTo", "dot", "angleWith")
@@ -2667,10 +2700,11 @@ def make_replay_method_helper(short):
                     return f"Vector.{meth}(<lazy operand evaluating to {tuple(plain_other)}>) evaluates to {res!r}; plain Python gives {want}"
             return None
         v = Vector(Range(0.5, 0.5), 2, 3) if self_random else plain_self
-        other = Vector(Range(4, 4), -1, 2) if kind == "random positional" else plain_other
+        other = Vector(Range(4, 4), -1, 2) if kind in ("random positional", "random keyword") else plain_other
         for meth in meths:
-            res = getattr(v, meth)(other)  # an exception inside the repository is reported by the runner
-            if self_random or kind == "random positional":
+            # an exception inside the repository is reported by the runner
+            res = getattr(v, meth)(other=other) if kind == "random keyword" else getattr(v, meth)(other)
+            if self_random or kind in ("random positional", "random keyword"):
                 if not needsSampling(res):
                     return f"Vector.{meth} of random values returned the non-random {res!r}"
                 res = res.sample()
@@ -3077,6 +3111,14 @@ def make_replay_dispatch(is_method):
             call = h
             pre = ()
         r = d.Range(0, 1)
+        if is_method:
+            ident = Recv()
+            hi = d.distributionMethod(f, identity=ident)
+            if hi(ident, "x", key=1) != "x" or calls:
+                return f"identity receiver: the first argument was not returned unchanged (calls {calls!r})"
+            if hi(me, "x", key=1) != "R" or calls != [((me, "x"), {"key": 1})]:
+                return f"a receiver that is not the declared identity must be handled normally: calls {calls!r}"
+            del calls[:]
         if kind == "known":
             res = call("a0", 2.0, key=3.0)
             if res != "R" or calls != [(pre + ("a0", 2.0), {"key": 3.0})]:
@@ -3199,4 +3241,19 @@ def replay_specify(inputs, clause):
     Constructible._specify(ctx, "width", 4.0)
     if ctx.width != 4.0:
         return f"_specify(..., 'width', 4.0) stored {ctx.width!r}"
+    return None
+
+
+def replay_vector_node_evaluate(inputs, clause):
+    from scenic.core.distributions import Range
+    from scenic.core.lazy_eval import DelayedArgument, LazilyEvaluable
+    from scenic.core.vectors import Vector, VectorOperatorDistribution
+
+    obj = Vector(Range(0, 1), 2, 3)
+    d0 = DelayedArgument(("p",), lambda ctx: "ctx(operand0)", _internal=True)
+    d1 = DelayedArgument(("p",), lambda ctx: "ctx(operand1)", _internal=True)
+    node = VectorOperatorDistribution("theOperator", obj, (d0, d1))
+    res = node.evaluateInner(LazilyEvaluable.makeContext(p=1))
+    if type(res) is not VectorOperatorDistribution or res.operator != "theOperator" or not _same(tuple(res.operands), ("ctx(operand0)", "ctx(operand1)")):
+        return f"VectorOperatorDistribution.evaluateInner built operator {getattr(res, 'operator', None)!r} over operands {getattr(res, 'operands', None)!r}; expected the context values of the operands in order"
     return None
